@@ -104,6 +104,11 @@ def h_relabel(n: int, fi: int, small: bool, **sym):
     want = ref_relabel(node, varmap)
     t = Tree(progs.copy_tree(node), metadata={'id': '3'})
     try:
+        # use the tree first (interpretation, compact formatting): relabelling
+        # must not depend on anything remembered from before
+        import penman
+        g_pre = layout.interpret(t, real)
+        penman.format(t, compact=True)
         t.reset_variables(fmt)
     except Exception as exc:
         raise Violation(f'{type(exc).__name__}: {exc}', node, fmt)
@@ -129,7 +134,7 @@ def h_relabel(n: int, fi: int, small: bool, **sym):
     if any(c in varmap.values() for c in consts):
         return
     try:
-        g0 = layout.interpret(Tree(progs.copy_tree(node)), real)
+        g0 = g_pre
         g1 = layout.interpret(t, real)
     except Exception as exc:
         raise Violation(f'interpret: {type(exc).__name__}: {exc}', node)
